@@ -4,6 +4,7 @@ The class-template pattern of tcb::span is analysed (symbolic Extent/Offset/Coun
 condition (TCB_SPAN_EXPECT) is turned into linear facts - admitting only wrap-free atoms - and must entail that the
 returned view/reference lies inside [data(), data()+size()).
 """
+import re
 from .. import clangjson as cj
 from .. import ir
 from ..linear import Lin, lin, nnf, dnf, atom_facts, entails
@@ -568,6 +569,65 @@ def rule_mode(rep):
                                             detail=got if ok else "expected %s, found: %s (checks %s)" % (want, got, "present" if has_expect else "absent"))
 
 
+def rule_assign(rep, d, methods):
+    """copy assignment re-seats the view: pointer AND count are the source's afterwards.  The defaulted operator does that; a hand-written one is followed
+    path-wise: a path that leaves the storage untouched must have established that `other` is this very object (a test on data() alone also holds for a
+    shorter or longer view that starts at the same element)."""
+    from .. import flow
+    ops = [f for f in methods.get("operator=", []) if ir.params(f) and "span" in ir.qtype(ir.params(f)[0])]
+    if not ops:
+        rep.holds("C16.shape", "span::operator=", "copy assignment re-seats pointer and count", detail="defaulted (memberwise)", nontrivial=False)
+        return
+    for fn in ops:
+        other = ir.params(fn)[0].get("name")
+        bad = inc = None
+        try:
+            paths = flow.function_paths(fn, with_ctor_inits=False)
+        except cj.AnalysisBroken:
+            paths = []
+            inc = "paths not enumerable"
+        for path in paths:
+            assigned = set()
+            conds = []
+            for st in path:
+                if st[0] == "cond" and isinstance(st[1], dict):
+                    conds.append((st[1], st[2]))
+                if st[0] in ("ev", "return") and isinstance(st[1], dict):
+                    for x in [st[1]] + list(ir.walk_expr(st[1])):
+                        t = ir.sx(x)
+                        if isinstance(t, tuple) and t and t[0] == "bin" and t[1] == "=":
+                            lhs = ir.show(t[2])
+                            if other in ir.show(t[3]):
+                                assigned.add(lhs.replace("this->", "").replace("(*this).", ""))
+            whole = any(a.endswith("storage_") for a in assigned)
+            parts = any("ptr" in a for a in assigned) and any("size" in a for a in assigned)
+            if whole or parts:
+                continue
+            # nothing (or only a part) was taken over on this path: it must be the self-assignment path
+            ident = False
+            for c_, truth in conds:
+                t = ir.sx(c_)
+                txt = re.sub(r"\s+", "", d.text(c_))
+                if t[0] == "bin" and t[1] in ("==", "!=") and "this" in txt and ("&" + other) in txt and (t[1] == "==") == truth:
+                    ident = True
+            if ident:
+                continue
+            why = "; ".join("%s is %s" % (re.sub(r"\s+", " ", d.text(c_))[:40], truth) for c_, truth in conds) or "unconditionally"
+            if assigned:
+                bad = "a path takes over only `%s` from `%s` (%s)" % (", ".join(sorted(assigned)), other, why)
+            else:
+                bad = ("a path leaves pointer and count unchanged although `%s` may be a different view (%s): a view that starts at the same element but has another "
+                       "length is not taken over" % (other, why))
+            break
+        lab = "span::operator=(%s)" % ir.qtype(ir.params(fn)[0])
+        if bad:
+            rep.violates("C16.shape", lab, "copy assignment re-seats pointer and count", where=d.where(fn), detail=bad)
+        elif inc:
+            rep.inconclusive("C16.shape", lab, "copy assignment re-seats pointer and count", where=d.where(fn), detail=inc)
+        else:
+            rep.holds("C16.shape", lab, "copy assignment re-seats pointer and count", where=d.where(fn), detail="%d path(s)" % len(paths))
+
+
 def rule_types(rep):
     from ..witness import WitnessTU
     rep.rule("C16.types", "static sub-view types carry exactly the requested extent: first<N>/last<N> -> span<T,N>; subspan<O,C> -> "
@@ -585,6 +645,21 @@ def rule_types(rep):
         for call in ("first(2)", "last(2)", "subspan(1)", "subspan(1, 2)"):
             w.same("decltype(std::declval<%s>().%s)" % (P, call), "span<int, dyn>", "C16.types", call.split("(")[0] + "(dynamic)", "return type", P)
         w.must_hold("std::is_same<typename %s::index_type, std::size_t>::value" % P, "C16.types", "index_type", "is size_t", P)
+    # a container is viewed only as elements of its own type (cv-qualification may be added): the stride of the view is the stride of the storage
+    w.raw("#include <vector>\n#include <array>\nnamespace wc { struct Base { int x; }; struct Derived : Base { int y; }; }")
+    for e, want in (("std::is_constructible<span<wc::Base>, std::vector<wc::Derived>&>::value", "false"),
+                    ("std::is_constructible<span<const wc::Base>, const std::vector<wc::Derived>&>::value", "false"),
+                    ("std::is_constructible<span<wc::Base, 2>, std::array<wc::Derived, 2>&>::value", "false"),
+                    ("std::is_constructible<span<const wc::Base>, std::array<wc::Derived, 2>&>::value", "false"),
+                    ("std::is_constructible<span<int>, const std::vector<int>&>::value", "false"),
+                    ("std::is_constructible<span<const int>, std::vector<int>&>::value", "true"),
+                    ("std::is_constructible<span<const int>, const std::vector<int>&>::value", "true"),
+                    ("std::is_constructible<span<int>, std::vector<int>&>::value", "true"),
+                    ("std::is_constructible<span<int, 3>, std::array<int, 3>&>::value", "true"),
+                    ("std::is_constructible<span<const wc::Derived>, std::vector<wc::Derived>&>::value", "true"),
+                    ("std::is_constructible<span<wc::Base>, span<wc::Derived>>::value", "false"),
+                    ("std::is_constructible<span<const int>, span<int>>::value", "true")):
+        w.must_hold("%s == %s" % (e, want), "C16.types", "span(Container&)", "element type compatibility", e.replace("std::is_constructible", "constructible").replace("::value", ""))
     w.run(rep, defines=["TCB_SPAN_THROW_ON_CONTRACT_VIOLATION"])
     # the bodies of the static sub-view members must instantiate for every count incl. 0, with both compilers (decltype above does not instantiate them)
     for comp in ("g++", "clang++"):
@@ -661,6 +736,7 @@ def run(tier):
     for fn in ats:
         rule_at(rep, dn, fn, symmap, noexc=True)
     rule_shape(rep, d, methods, ctors, symmap)
+    rule_assign(rep, d, methods)
     rule_mode(rep)
     rule_types(rep)
     rep.unit("span<ElementType, Extent> pattern: %d methods, %d constructors" % (sum(len(v) for v in methods.values()), len(ctors)))
